@@ -46,7 +46,7 @@ func virtualCheck(t *testing.T) {
 	}
 	idx := 0
 	for off := 0; off < len(hello); off += 7 {
-		for _, kind := range []string{"cancel", "deadline"} {
+		for _, kind := range []string{"cancel", "deadline", "cancel-before-own-deadline"} {
 			for _, c := range []time.Duration{0, time.Millisecond, 50 * time.Millisecond} {
 				idx++
 				cs := map[string]any{"offset": off, "kind": kind, "at": c.String()}
@@ -68,6 +68,12 @@ func virtualCheck(t *testing.T) {
 						var cancel context.CancelFunc
 						if kind == "deadline" {
 							ctx, cancel = context.WithTimeout(context.Background(), c)
+						} else if kind == "cancel-before-own-deadline" {
+							// the usual server shape: a per-connection timeout under a parent that is cancelled at shutdown
+							parent, pcancel := context.WithCancel(context.Background())
+							defer pcancel()
+							time.AfterFunc(c, pcancel)
+							ctx, cancel = context.WithTimeout(parent, 30*time.Second)
 						} else {
 							ctx, cancel = context.WithCancel(context.Background())
 							time.AfterFunc(c, cancel)
